@@ -126,12 +126,12 @@ def run(tier, seed, t0):
     for ops, nm in SCEN_QUICK + (SCEN_THOROUGH if tier == "thorough" else []):
         try:
             scenario(e3, ops, nm)
-        except sym.Unsupported as ex:
+        except _e3.ENC_ERRORS as ex:
             e3.error(nm, "MIR->SMT encoding of metrics::atomics", ex)
     for n in ([1] if tier == "quick" else [1, 2, 3]):
         try:
             bucket_record_many(e3, n)
-        except (sym.Unsupported, KeyError, IndexError) as ex:
+        except _e3.ENC_ERRORS as ex:
             e3.error(f"c04_bucket_record_many_{n}", "MIR->SMT encoding of record_many on AtomicBucket<f64>", ex)
     obs = list(e3.res.obligations)
     obs += kani.run_group("core", HARNESSES, tier, hooks=True)
